@@ -178,7 +178,7 @@ func getSet(i int) (*forge.Set, error) {
 }
 
 func run(c *kit.Ctx) {
-	n := c.N(640, 45000)
+	n := c.N(640, 20000)
 	for i := 0; i < n; i++ {
 		id := fmt.Sprintf("s%d", i)
 		if !c.Mine(i, id) {
